@@ -488,6 +488,49 @@ func runC02(c *core.Ctx) {
 			add(rng.Intn(2) == 0, mag)
 		}
 	}
+	// 64-bit integers beside a float32 / float64 rounding tie (more significant bits than float64 holds): an
+	// int -> float64 -> float32 detour double-rounds exactly these
+	for ti := range c02IntTypes {
+		t := &c02IntTypes[ti]
+		if t.hi < math.MaxUint32 {
+			continue
+		}
+		for e := uint(25); e <= 63; e++ {
+			for rep := 0; rep < c.Pick(6, 60); rep++ {
+				m := uint64(rng.Intn(1 << 23))
+				if rep == 0 {
+					m = 0
+				}
+				tie32 := (uint64(1) << e) | (m << (e - 23)) | (uint64(1) << (e - 24))
+				for _, dlt := range []uint64{0, 1, 2, 3} {
+					for _, sgn := range []bool{false, true} {
+						for _, neg := range []bool{false, true} {
+							v := tie32 + dlt
+							if sgn {
+								v = tie32 - dlt
+							}
+							if within(neg, v, t.lo, t.hi) {
+								jobs = append(jobs, job{t, neg && v != 0, v})
+							}
+						}
+					}
+				}
+				if e >= 54 {
+					tie64 := (uint64(1) << e) | ((m | uint64(rng.Intn(1<<29))<<23) << (e - 52)) | (uint64(1) << (e - 53))
+					for _, dlt := range []uint64{0, 1} {
+						for _, neg := range []bool{false, true} {
+							if within(neg, tie64+dlt, t.lo, t.hi) {
+								jobs = append(jobs, job{t, neg, tie64 + dlt})
+							}
+							if within(neg, tie64-dlt, t.lo, t.hi) {
+								jobs = append(jobs, job{t, neg, tie64 - dlt})
+							}
+						}
+					}
+				}
+			}
+		}
+	}
 	parallelFor(len(jobs), func(w, i int) {
 		j := jobs[i]
 		v := j.t.mk(j.neg, j.mag)
@@ -536,6 +579,16 @@ func runC02(c *core.Ctx) {
 		math.SmallestNonzeroFloat32, math.SmallestNonzeroFloat64, -math.SmallestNonzeroFloat64, math.MaxFloat32 * 2, 1e300, -1e300, 0.49999999999999994, 0.5, 1.5, 2.5, -0.5, -1.5, -2.5,
 		math.Nextafter(math.MaxFloat32, math.Inf(1)), 3.4028235677973366e+38, 3.4028235e38, 1e39, 1e-50, 16777217, 9007199254740993} {
 		addF(f)
+	}
+	for e := -140; e <= 127; e += 3 { // float64 values beside float32 rounding ties
+		for rep := 0; rep < 4; rep++ {
+			m := float64(rng.Intn(1<<23)) / float64(1<<23)
+			tie := math.Ldexp(1+m+1.0/float64(1<<24), e)
+			addF(tie)
+			addF(math.Nextafter(tie, math.Inf(1)))
+			addF(math.Nextafter(tie, math.Inf(-1)))
+			addF(-tie)
+		}
 	}
 	for i := 0; i < nrand; i++ {
 		switch rng.Intn(3) {
@@ -656,7 +709,7 @@ func init() {
 		Meta: func(c *core.Ctx) core.Meta {
 			return core.Meta{
 				Level: "exploration",
-				Rule: "exact-arithmetic oracle (sign+magnitude / math/big): exhaustive over every int8/uint8/int16/uint16 value; for the wide integer types, float32/float64 and numeric strings a boundary set (0, +-1, every power-of-two bound +-3, +-0.25/0.5/0.75, +-1 ulp in float32 and float64, NaN, +-Inf, -0, max/min, subnormals) plus PRNG values biased to bit-length boundaries; each value wrapped by Maybe.Just and JustGenerics[T] and pushed through all 14 numeric conversions and ToBool. " +
+				Rule: "exact-arithmetic oracle (sign+magnitude / math/big): exhaustive over every int8/uint8/int16/uint16 value; for the wide integer types, float32/float64 and numeric strings a boundary set (0, +-1, every power-of-two bound +-3, +-0.25/0.5/0.75, +-1 ulp in float32 and float64, NaN, +-Inf, -0, max/min, subnormals) plus PRNG values biased to bit-length boundaries, plus 64-bit integers and float64 values beside float32/float64 rounding ties (double-rounding traps); each value wrapped by Maybe.Just and JustGenerics[T] and pushed through all 14 numeric conversions and ToBool. " +
 					"Zones per (target, value): must-succeed (raw value inside the target range; portable 32-bit range for int/uint/uintptr), must-fail (rounded value outside the real range, NaN/Inf to an integer, finite float overflowing float32), either; in every zone a nil error requires the exact expected number. distinct_nontrivial = distinct (source type, value, target) with value not in {0,1}",
 				Assumptions: []string{"64-bit platform: the real range of int/uint/uintptr is 64 bits, the must-succeed range is the portable 32-bit one",
 					"strings: canonical decimal integers are in the must-succeed/must-fail zones; other decimal syntaxes only when strconv's float syntax accepts them; strings the model cannot parse are only required not to panic",
